@@ -526,18 +526,8 @@ def run(res, tier, seed):
     res.cov["translator"] = dict(gen_leaf_rewritten=bool(changed), refused=refused)
     # 2. proofs (make rebuilds Gen_leaf.vo and everything that depends on it when it changed)
     corr = Corr(res, tier, seed)
-    state = {"ran": False}
-
-    def search(pr):
-        state["ran"] = True
-        bad = corr.run()
-        res.cov["broken_obligation"] = obligation_text(pr, refused)[:3000]
-        if bad:
-            return None if True else bad[0]
-        return None
-
-    # engine.proof_part reports a broken obligation itself; we only want ONE line per failing input, so the
-    # violation for inputs is printed by Corr.mismatch and the obligation line is added below
+    # One VIOLATION line per failing input (printed by Corr.mismatch); if the obligation itself is broken an
+    # additional line below names the obligation and points at the failing input(s) found, if any.
     pr = vlib.prove("Properties_C19")
     res.add_proof(pr)
     res.cov["checker_cmd"] = "cd /verif/coq && make -k Properties/Properties_C19.vo"
